@@ -2,7 +2,7 @@
 (* T-mode for relational properties: reads composite events recorded from the REAL code (vh events) and
    evaluates the property's relation on the observed values.  Every event is independent; a verdict other
    than "ok" is collected with the index of the event; bin/check turns it into a replay file. *)
-EXTENDS Options, Json
+EXTENDS Canon, Json
 CONSTANT TraceFile
 Trace == ndJsonDeserialize(TraceFile)
 VARIABLES l, bad
@@ -122,6 +122,9 @@ HasEmptyPair(lst) == \E i \in 1..Len(lst) : lst[i][1] = <<>> /\ lst[i][2] = <<>>
 CheckIdem(e) ==
   Verdicts(<<
     <<"crash", ~(Crashed(e.y) \/ Crashed(e.z))>>,
+    <<"exact: the profile's output differs from the specification's canonicalizer pipeline (Canon!CanonRun)",
+        e.prof \notin ModelledProfiles \/
+          LET c == CanonRun(e.prof, e.in) IN c.asked \/ (c.fail = e.y.fail /\ (c.fail \/ Getters(c.u) = e.y.g))>>,
     <<IF ~e.y.fail /\ IsGsbLike(e.prof) /\ HasEmptyPair(e.yp) THEN "not idempotent [F14: stored list has an empty-name/empty-value pair under skip-equals]"
       ELSE IF ~e.y.fail /\ Unfaithful(e.prof, e.yp) THEN "not idempotent [F03: stored list is not faithfully serialized]"
       ELSE "not idempotent",
